@@ -281,6 +281,18 @@ impl StateHandle {
     }
 
     pub(super) fn rotate(&self) -> Result<(), FlexiLoggerError> {
+        // with asynchronous writing, the rotation must take place
+        // after the content that was sent before, and before the content that is sent afterwards
+        #[cfg(feature = "async")]
+        if let StateHandle::Async(handle) = self {
+            let (reply_sender, reply_receiver) = std::sync::mpsc::sync_channel(1);
+            if handle.sender.send(AsyncMessage::Rotate(reply_sender)).is_ok() {
+                if let Ok(result) = reply_receiver.recv() {
+                    return result;
+                }
+            }
+            // the writer thread is not there anymore, we do it ourselves
+        }
         let mut state = match self {
             StateHandle::Sync(handle) => handle.am_state.lock(),
             #[cfg(feature = "async")]
